@@ -91,11 +91,27 @@ package http2
 //@   ensures p.fed == old(p.fed) ++ d[:n] && (err == nil <==> !old(p.shut)) && p.shut == old(p.shut)
 //@ func (*pipe).CloseWithError :: p, err
 //@   trusted
+//@   requires [C10:pipe-present] p != nil
 //@   assigns p.all
 //@   ensures p.fed == old(p.fed)
-//@ func (*stream).endStream :: st
+//@ -- C10/C11: the per-stream read timer fires on its own goroutine (no recover there): requests without a body have
+//@ -- no pipe, and the timer must then do nothing rather than dereference it
+//@ func (*stream).onReadTimeout :: st
+//@   props C10,C11
+//@   requires st != nil
+//@   assigns st.body.all
+//@ func (*pipe).closeWithErrorAndCode :: p, err, fn
 //@   trusted
-//@   assigns unrestricted
+//@   assigns p.all
+//@   ensures p.fed == old(p.fed)
+//@ -- C13: END_STREAM from the client (on DATA or on trailers) always moves the stream to half-closed (remote),
+//@ -- also when the body was shorter than the declared Content-Length; the bytes already handed over stay as they are
+//@ func (*stream).endStream :: st
+//@   props C13,C08
+//@   requires st != nil && st.sc != nil && st.body != nil
+//@   assigns st.state, st.body.all
+//@   ensures [C13:end-of-request-moves-the-stream-to-half-closed-remote-on-every-path] st.state == 3
+//@   ensures [C08:ending-the-body-adds-no-bytes] st.body.fed == old(st.body.fed)
 //@ -- writing a frame may finish another stream (wroteFrame -> closeStream), which returns that stream's unread body
 //@ -- bytes to the connection window: assumed to keep the ledger, and to leave stream-level windows alone
 //@ func (*serverConn).writeFrame :: sc, wr
@@ -149,6 +165,7 @@ package http2
 //@   requires sc != nil && f != nil && f.FrameHeader.valid && streamsOK(sc) && inflowOK(sc.inflow)
 //@   requires forall id uint32 :: mapHas(sc.streams, id) ==> inflowOK(mapGet(sc.streams, id).inflow)
 //@   requires [C10:open-streams-have-a-body] forall id uint32 :: mapHas(sc.streams, id) && mapGet(sc.streams, id).state == 1 ==> mapGet(sc.streams, id).body != nil
+//@   requires [C13:streams-belong-to-this-connection] forall id uint32 :: mapHas(sc.streams, id) ==> mapGet(sc.streams, id).sc == sc
 //@   requires [C12:data-within-frame-length] len(f.data) <= f.FrameHeader.Length && f.FrameHeader.Length <= 16777215
 //@   requires [C08:body-count-far-from-the-int64-limit] forall id uint32 :: mapHas(sc.streams, id) ==> 0 <= mapGet(sc.streams, id).bodyBytes && mapGet(sc.streams, id).bodyBytes <= 4611686018427387904
 //@   requires [C12:ledger-within-window] connLedger(sc) <= 2147483647 && owedByBodies >= 0
@@ -185,7 +202,7 @@ package http2
 //@   ensures handlerStarts == old(handlerStarts) ++ seq[uint32]{streamID}
 //@ func (*stream).processTrailerHeaders :: st, f -> err
 //@   props C13,C10
-//@   requires st != nil && st.sc != nil && f != nil && f.HeadersFrame != nil && hdrCacheOK(st.sc)
+//@   requires st != nil && st.sc != nil && f != nil && f.HeadersFrame != nil && hdrCacheOK(st.sc) && st.body != nil
 //@   assigns unrestricted
 //@   ensures [C13:second-trailer-block-is-a-connection-protocol-error] old(st.gotTrailerHeader) ==> isConnErr(err, 1)
 //@   ensures [C13:trailers-must-carry-end-stream] !old(st.gotTrailerHeader) && !old(flag(f.HeadersFrame.FrameHeader.Flags, 1)) ==> isStreamErr(err, old(st.id), 1)
@@ -266,6 +283,7 @@ package http2
 //@   props C13,C10
 //@   requires sc != nil && f != nil && f.HeadersFrame != nil && sc.streams != nil && sc.hs != nil && sc.srv != nil && sc.handler != nil && sc.conn != nil && sc.writeSched != nil && sc.curClientStreams < 4294967295 && hdrCacheOK(sc)
 //@   requires [C13:streams-belong-to-this-connection] forall id uint32 :: mapHas(sc.streams, id) && mapGet(sc.streams, id) != nil ==> mapGet(sc.streams, id).sc == sc
+//@   requires [C13:streams-that-can-still-receive-have-a-body] forall id uint32 :: mapHas(sc.streams, id) && mapGet(sc.streams, id) != nil && mapGet(sc.streams, id).state != 3 ==> mapGet(sc.streams, id).body != nil
 //@   assigns unrestricted, procLog, handlerStarts
 //@   ghostset procLog = procLog ++ seq[int]{1}
 //@   ensures procLog == old(procLog) ++ seq[int]{1}
@@ -279,7 +297,7 @@ package http2
 //@ -- what the serve loop maintains between frames, and what the framer guarantees about a frame it hands over
 //@ -- every registered stream is open or half closed, has its cancel function, and its unread body bytes are owed
 //@ pure func regOK(sc *serverConn) bool = forall id uint32 :: mapHas(sc.streams, id) ==> mapGet(sc.streams, id).state != 0 && mapGet(sc.streams, id).state != 4 && mapGet(sc.streams, id).cancelCtx != nil && mapGet(sc.streams, id).sc == sc && 0 <= mapGet(sc.streams, id).bodyBytes && mapGet(sc.streams, id).bodyBytes <= 4611686018427387904 && (mapGet(sc.streams, id).body != nil ==> unreadOf(mapGet(sc.streams, id).body) <= owedByBodies)
-//@ pure func connInv(sc *serverConn) bool = streamsOK(sc) && inflowOK(sc.inflow) && (forall id uint32 :: mapHas(sc.streams, id) ==> inflowOK(mapGet(sc.streams, id).inflow)) && (forall id uint32 :: mapHas(sc.streams, id) && mapGet(sc.streams, id).state == 1 ==> mapGet(sc.streams, id).body != nil) && connLedger(sc) <= 2147483647 && owedByBodies >= 0 && sc.hs != nil && sc.srv != nil && sc.handler != nil && sc.conn != nil && sc.writeSched != nil && sc.curClientStreams < 4294967295 && hdrCacheOK(sc) && (forall id uint32 :: mapHas(sc.streams, id) ==> mapGet(sc.streams, id).state != 0) && (sc.pingSent ==> sc.readIdleTimer != nil) && sc.unackedSettings >= 0 && regOK(sc)
+//@ pure func connInv(sc *serverConn) bool = streamsOK(sc) && inflowOK(sc.inflow) && (forall id uint32 :: mapHas(sc.streams, id) ==> inflowOK(mapGet(sc.streams, id).inflow)) && (forall id uint32 :: mapHas(sc.streams, id) && mapGet(sc.streams, id).state != 3 ==> mapGet(sc.streams, id).body != nil) && connLedger(sc) <= 2147483647 && owedByBodies >= 0 && sc.hs != nil && sc.srv != nil && sc.handler != nil && sc.conn != nil && sc.writeSched != nil && sc.curClientStreams < 4294967295 && hdrCacheOK(sc) && (forall id uint32 :: mapHas(sc.streams, id) ==> mapGet(sc.streams, id).state != 0) && (sc.pingSent ==> sc.readIdleTimer != nil) && sc.unackedSettings >= 0 && regOK(sc)
 //@ pure func frameWF(f Frame) bool = (isptr(WindowUpdateFrame, f) ==> 1 <= unboxptr(WindowUpdateFrame, f).Increment && unboxptr(WindowUpdateFrame, f).Increment <= 2147483647) && (isptr(DataFrame, f) ==> unboxptr(DataFrame, f).FrameHeader.valid && len(unboxptr(DataFrame, f).data) <= unboxptr(DataFrame, f).FrameHeader.Length && unboxptr(DataFrame, f).FrameHeader.Length <= 16777215)
 
 //@ -- C12, client transport: one piece of request body never exceeds the stream/connection windows, the caller's
@@ -432,6 +450,7 @@ package http2
 //@ -- C12, the other half of the receive ledger: what the handler has read, and what is still unread when a stream is
 //@ -- closed, goes back to the connection window (owedByBodies is settled by exactly that amount)
 //@ writers [C12:request-body-pipe-fixed-at-stream-creation] stream fields body only (*serverConn).processHeaders
+//@ writers [C13:stream-connection-link-set-at-creation] stream fields sc only (*serverConn).newStream
 //@ pure func unreadOf(p *pipe) int
 //@ func (*pipe).Len :: p -> n
 //@   trusted
